@@ -23,6 +23,18 @@
  * Output, one line per input line:  <trace tokens> | <state>
  *   tokens: <op>:<res>  run  cb:<id>  end:<rc>  poll:<timeout>:<adv>:<fd/events/revents,..>:<ok|eintr|stuck|intr>  ret:<rc>
  *   state : nfds, fdscanpos, fds[], S[], minq, the 32 queues, live timers, clock, interrupt flag
+ *
+ * -DHC_BLACKBOX (used when the white-box build no longer compiles, e.g. after a static or a member of a
+ * private struct was renamed): the four files are compiled separately and only events.h is used.  The
+ * trace (the L1 part) never needed private names -- it is made of the results of the public calls, the
+ * harness's own callbacks and its poll()/clock substitutes -- and is printed unchanged; the state part
+ * is not printed.  Between cases the registrations are cancelled through the public interface, as in
+ * the white-box build.  Of the statics the white-box build also resets by hand, minq is only a lower
+ * bound of the first non-empty queue (any value is right once all queues are empty) and fdscanpos is
+ * written by every events_network_select before events_network_get reads it, so neither can reach the
+ * trace of the next case; a pending interrupt request (a case that ends with `interrupt` and no `run`;
+ * the harness knows because it issued the request) is consumed by one events_run with nothing
+ * registered.  One process per case is therefore not needed (it costs 9 minutes per forced check).
  */
 #include <sys/time.h>
 #include <errno.h>
@@ -33,10 +45,14 @@
 
 #include "monoclock.h"
 
+#ifdef HC_BLACKBOX
+#include "events.h"
+#else
 #include "events.c"
 #include "events_immediate.c"
 #include "events_network.c"
 #include "events_timer.c"
+#endif
 
 #define MAXID 4096
 #define MAXFD 256
@@ -78,6 +94,14 @@ static size_t pqlen = 0, pqhead = 0, pqcap = 0;
 static unsigned long long clock_us = 0;
 static int cbcount = 0;
 static int spin_done = 0;
+
+#ifdef HC_BLACKBOX
+/* An events_interrupt() was issued and no events_run() has returned since. */
+static int bb_intr = 0;
+#define BB_INTR(v)	(bb_intr = (v))
+#else
+#define BB_INTR(v)	((void)0)
+#endif
 
 /* Output buffer for the trace of the current line. */
 static char * ob = NULL;
@@ -196,8 +220,10 @@ __wrap_poll(struct pollfd * pfds, nfds_t n, int timeout)
 		 * so the library's flag is set when poll returns.
 		 */
 		clock_us += adv;
-		if (a->eintr != 1)
+		if (a->eintr != 1) {
 			events_interrupt();
+			BB_INTR(1);
+		}
 		out("poll:%d:%llu:", timeout, adv);
 		if (n == 0)
 			outc("-");
@@ -323,6 +349,7 @@ do_op(const char * op, long long a, long long b, int dir)
 		out("xt:%lld:ok", a);
 	} else if (strcmp(op, "int") == 0) {
 		events_interrupt();
+		BB_INTR(1);
 		out("int:ok");
 	} else if (strcmp(op, "clk") == 0) {
 		clock_us += (unsigned long long)a;
@@ -442,6 +469,9 @@ queue_poll(int eintr, unsigned long long adv, char * s)
 	}
 }
 
+#ifdef HC_BLACKBOX
+#define dump_state()	((void)0)
+#else
 static void
 outid(struct eventrec * r)
 {
@@ -523,6 +553,7 @@ dump_state(void)
 		putchar('-');
 	printf(" clk=%llu int=%d", clock_us, interrupt_requested ? 1 : 0);
 }
+#endif
 
 /* Back to the initial state: cancel whatever is registered, reset the scalars. */
 static void
@@ -550,11 +581,25 @@ reset_all(void)
 		scripts[i].rc = 0;
 	}
 	memset(nettab, 0xff, sizeof(nettab));
+#ifndef HC_BLACKBOX
 	minq = 32;
 	fdscanpos = 0;
 	interrupt_requested = 0;
+#endif
 	clock_us = 0;
 	pqlen = pqhead = 0;
+#ifdef HC_BLACKBOX
+	/*
+	 * Nothing is registered and no poll answer is queued: events_run() finds the request at once (or in
+	 * the EINTR of the empty poll), clears it and returns; what this writes to the trace buffer is dropped.
+	 */
+	if (bb_intr) {
+		(void)events_run();
+		bb_intr = 0;
+		clock_us = 0;
+		oblen = 0;
+	}
+#endif
 	spin_done = 0;
 	cbcount = 0;
 }
@@ -606,6 +651,7 @@ main(void)
 			cbcount = 0;
 			out("run");
 			rc = events_run();
+			BB_INTR(0);
 			out("ret:%d", rc);
 		} else
 			out("bad-op");
